@@ -359,6 +359,11 @@ func decodeLen(highThreeBits, lowFiveBits byte, additional []byte) (int, error) 
 		length = uint64(lowFiveBits)
 	}
 	if highThreeBits == mapMajorType {
+		// Check before doubling: a pair count of 2^63 or more would wrap
+		// around to a small number of items
+		if length >= MaxArrayDecodeLength {
+			return 0, fmt.Errorf("length exceeds max size: %d", length)
+		}
 		length *= 2
 	}
 	if length > math.MaxInt || length >= MaxArrayDecodeLength {
